@@ -249,7 +249,7 @@ class C05(common.Check):
             "0/1/2/true+-1/2^32-1); structure-aware DER mutants of every TLV node (emptied, dropped, duplicated, class/constructed bit "
             "flipped, high-tag form, leaf content shortened to every length / extended with consistent enclosing lengths, raw length octets: "
             "indefinite, 0, +-1, 2^32, 2^63, 2^64, non-minimal); whole-record garbage and PRNG byte "
-            "strings; well-formed records with long / odd domain and forest names; a cache on which an earlier load_key with unusable KDF parameters failed; valid records unprotected from caller threads while another thread loads the same root key again; records naming a root key the shared cache does not hold, from 2..3 threads at once; 2..3 caller threads unprotecting public-key records as the first thing a new interpreter does with the library (sub-process per case); a sample of the field / DER mutations in a child interpreter with assertions compiled out. Oracle: returns | needs-network | ValueError/NotImplementedError/NotEnougData/InvalidTag/InvalidUnwrap; <= 300 KDF "
+            "strings; well-formed records with long / odd domain and forest names; records under another self-consistent kind of protection descriptor (SDDL, LOCAL, KEY_FILE ...); a cache on which an earlier load_key with unusable KDF parameters failed; valid records unprotected from caller threads while another thread loads the same root key again; records naming a root key the shared cache does not hold, from 2..3 threads at once; 2..3 caller threads unprotecting public-key records as the first thing a new interpreter does with the library (sub-process per case); a sample of the field / DER mutations in a child interpreter with assertions compiled out. Oracle: returns | needs-network | ValueError/NotImplementedError/NotEnougData/InvalidTag/InvalidUnwrap; <= 300 KDF "
             "calls; <= 150000 + 400*len traced lines; <= 5 s of CPU time (backstop for work outside the interpreter: regular expressions, big numbers); address-space growth during the call <= 64 MiB + 64*len (kernel high-water mark); for the field mutations and a quarter of the others the undamaged blob is unprotected afterwards on the same "
             "cache and must still return its plaintext (locks created by the library are simulated: an acquire nobody can satisfy is the "
             "outcome 'blocks'). Non-trivial = stored bytes differ from a valid blob; distinct = distinct (blob, mutation).")
@@ -258,7 +258,7 @@ class C05(common.Check):
                   "network": "simulated, none reachable; attempts classified at the seam"}
     assumptions = ["budgets are 4x (KDF) and >20x (lines) the maxima observed on valid input and affine in input length",
                    "PRNG byte strings are a weak generator and stated as such"]
-    required_fired = ("rot", "tear", "field", "der", "garbage", "outcome_needs-network", "outcome_raise", "outcome_ok", "valid_blob_after_damaged_one", "names", "bad_load_key", "reload_while_unprotecting", "thread_overlap", "first_use_in_new_process", "mutations_with_assertions_compiled_out")
+    required_fired = ("rot", "tear", "field", "der", "garbage", "outcome_needs-network", "outcome_raise", "outcome_ok", "valid_blob_after_damaged_one", "names", "bad_load_key", "reload_while_unprotecting", "thread_overlap", "first_use_in_new_process", "mutations_with_assertions_compiled_out", "descriptor")
 
     def exhaustive(self, tier):
         return tier == "thorough"
@@ -321,6 +321,12 @@ class C05(common.Check):
             for k, bad in enumerate(BAD):
                 for then_good in (False, True):
                     out.append([bi, 1, ["badload", dict(bad, then_good=then_good)]])
+        # records under another, self-consistent kind of protection descriptor (OID and type string changed together)
+        for bi in ([0, 7, 33] if tier == "quick" else range(0, len(cat), 3)):
+            for oid, ts, val in (("1.3.6.1.4.1.311.74.1.5", "SDDL", "O:SYG:SYD:(A;;CCDC;;;SY)"), ("1.3.6.1.4.1.311.74.1.8", "LOCAL", "user"), ("1.3.6.1.4.1.311.74.1.8", "LOCAL", "machine"),
+                                 ("1.3.6.1.4.1.311.74.1.2", "KEY_FILE", "C:\\keys\\k.bin"), ("1.3.6.1.4.1.311.74.1.1", "SDDL", "S-1-5-18"), ("1.3.6.1.4.1.311.74.1.5", "SID", "S-1-5-18"),
+                                 ("1.3.6.1.4.1.311.74.1.3", "WEBCREDENTIALS", "x,y"), ("1.3.6.1.4.1.311.74.1.1", "sid", "S-1-5-18")):
+                out.append([bi, 1, ["descriptor", oid, ts, val]])
         # valid records unprotected from caller threads while another thread loads the root key again
         from checks import threadpure
 
@@ -373,11 +379,13 @@ class C05(common.Check):
         bad_load = None
         if fault[0] == "names":
             stored = blobs.with_names(b, fault[1], fault[2])
+        elif fault[0] == "descriptor":
+            stored = blobs.with_descriptor(b, fault[1], fault[2], fault[3])
         elif fault[0] == "badload":
             stored, bad_load = b.blob, fault[1]
         else:
             stored = blobstore.apply_fault(b.blob, fault[:2] if fault[0] == "garbage" else fault, b.offsets)
-        kind = {"flip": "rot", "trunc": "tear", "field": "field", "names": "names", "badload": "bad_load_key",
+        kind = {"flip": "rot", "trunc": "tear", "field": "field", "names": "names", "descriptor": "descriptor", "badload": "bad_load_key",
                 "garbage": "der" if (len(fault) > 2 and fault[2].startswith("der")) else "garbage"}[fault[0]]
         fired = {kind: 1}
         limit = LINE_A + LINE_B * len(stored)
